@@ -2,7 +2,7 @@
    Block structure is proved for every number of groups and effect columns; the choice of the
    effect coding is the C03 analysis applied by Model.eval with one uniform flag (finding
    KF-C05-1 lists the effect expressions for which that flag is not what C03 would choose). *)
-From Verif Require Import Base Coding Contrasts Frame Eval Design DesignStructure DesignCoding.
+From Verif Require Import Base Coding Contrasts Frame Eval Algebra Design DesignStructure DesignCoding GroupCoding.
 From Verif Require Tie.
 Local Close Scope Qc_scope.
 Local Close Scope Q_scope.
@@ -56,6 +56,50 @@ Theorem C05_group_labels :
         List.length (dg_labels dg) = List.length (nth i (dg_rows dg) []).
 Proof. exact set_data_gterm_lrow. Qed.
 
+(* The coding of the effect columns: every group-specific term of a built design was coded with ONE flag
+   for all its components; the flag is "full" for a group intercept and otherwise "reduced exactly when
+   (1|same factor) is in the model". *)
+Theorem C05_effect_coding_rule : forall cx data m ds,
+  eval_model cx data m = Ok ds ->
+  forall dg, In dg (ds_group ds) ->
+  exists g tg,
+    In g (groups m) /\ set_type_gterm cx data g = Ok tg /\
+    let flag := group_spans (groups m) g in
+    set_data_gterm (ds_nrows ds) tg flag = Ok dg /\
+    set_data_term (ds_nrows ds) (tg_expr tg) (SpBool flag) = Ok (dg_expr dg) /\
+    Forall (fun d => dc_spans d = flag) (dt_comps (dg_expr dg)) /\
+    flag = uniform_flag (map gexpr (sharing (groups m) (gfactor g))) (gexpr g) /\
+    (flag = false <-> gexpr g <> CI /\ has_group_intercept (groups m) (gfactor g)).
+Proof. exact group_effect_coding_rule. Qed.
+
+(* For the lme4 shapes (1|g), (x|g), (0 + f|g), (f|g) that flag IS what the common-effects analysis
+   (pick_contrasts on the effect expressions sharing the factor) prescribes ... *)
+Theorem C05_rule_agrees_intercept : agrees_on [TTIntercept].
+Proof. exact shape_intercept_agrees. Qed.
+Theorem C05_rule_agrees_numeric : forall name c,
+  tc_kind c = KNumeric -> agrees_on [TTIntercept; TTTerm name [c]].
+Proof. exact shape_numeric_agrees. Qed.
+Theorem C05_rule_agrees_categoric_alone : forall name c,
+  tc_kind c = KCategoric -> tc_name c = name -> agrees_on [TTTerm name [c]].
+Proof. exact shape_categoric_alone_agrees. Qed.
+Theorem C05_rule_agrees_categoric_with_intercept : forall name c,
+  tc_kind c = KCategoric -> tc_name c = name -> name <> "Intercept"%string ->
+  agrees_on [TTIntercept; TTTerm name [c]].
+Proof. exact shape_categoric_with_intercept_agrees. Qed.
+
+(* ... and for several categorical effects under one factor it is NOT (listed finding KF-C05-1): for
+   (0 + f + h|g) the analysis codes h reduced, the model (like the implementation) codes both in full. *)
+Theorem C05_refuted_uniform_flag :
+  let s := "y ~ (0 + f + h|g)"%string in
+  map (uniform_flag_t (gc_effects s)) (gc_effects s) = [true; true] /\
+  encoding_bools (map term_kind_info (gc_effects s))
+    = Ok [("f"%string, [[("f"%string, true)]]); ("h"%string, [[("h"%string, false)]])] /\
+  ~ agrees_on (gc_effects s).
+Proof. cbv zeta. destruct uniform_flag_refuted as (_ & _ & H1 & H2 & H3). auto. Qed.
+
+Print Assumptions C05_effect_coding_rule.
+Print Assumptions C05_rule_agrees_categoric_with_intercept.
+Print Assumptions C05_refuted_uniform_flag.
 Print Assumptions C05_onehot_kron.
 Print Assumptions C05_group_block.
 Print Assumptions C05_group_labels.
